@@ -17,7 +17,7 @@ RULE = ("(a) every document of a reference-heavy family and the repository's bas
         "scheduling: under the VSet loader every iterated set of >=2 elements is re-ordered (all permutations up to 4 elements, "
         "adjacent swaps + reversal + rotation above), one deviation at a time (thorough: also pairs), every byte difference "
         "confirmed with real hash seeds before it is reported; (c) all permutations of components.schemas (<=4 names permuted) "
-        "and paths (<=3) of every family document that generates without diagnostics; the family includes unions with repeated members after flattening, component unions with an inline member before a forward reference, one model as body under three media types, siblings re-declaring an inherited property; oracle: byte-identical trees; the same enum class under another value order (string and integer members) or described differently at each use, class names and literal values differing only in case, children promoting several inherited properties, 3.0 nullable wrappers around forward references")
+        "and paths (<=3) of every family document that generates without diagnostics; the family includes unions with repeated members after flattening, component unions with an inline member before a forward reference, one model as body under three media types, siblings re-declaring an inherited property; oracle: byte-identical trees; one operation answering with classes that differ only in case, operations under different tags whose module names coincide, the same enum class under another value order (string and integer members) or described differently at each use, class names and literal values differing only in case, children promoting several inherited properties, 3.0 nullable wrappers around forward references")
 FLOOR = 0.5
 CASE_LIMIT = 600
 ASSUMPTIONS = ["VSet models hash order as a function of the set's contents; a model-level difference is only a candidate until two real interpreters reproduce it",
@@ -143,6 +143,17 @@ def family():
         "FileName": obj(a={"type": "string"}), "Filename": obj(b={"type": "string"}), "UserName": obj(c={"type": "string"}), "Username": obj(d={"type": "string"}),
         "TimeStamp": {"type": "string", "enum": ["t1"]}, "Timestamp": {"type": "string", "enum": ["t2"]}, "PostCode": {"type": "integer", "enum": [1]}, "Postcode": {"type": "integer", "enum": [2]},
         "Holder": obj(f1=ref("FileName"), f2=ref("Filename"), u1=ref("UserName"), u2=ref("Username"), t1=ref("TimeStamp"), t2=ref("Timestamp"), p1=ref("PostCode"), p2=ref("Postcode"))})
+    # one operation whose responses are classes that differ only in case (the return-type union lists them), also as body media types
+    F["case-twin-responses"] = gen.base_doc({
+        "OAuthToken": obj(a={"type": "string"}), "OauthToken": obj(b={"type": "string"}), "Problem": obj(p={"type": "integer"}), "problem": obj(q={"type": "integer"})},
+        paths={"/t": {"post": {"operationId": "getToken", "requestBody": {"content": {"application/json": {"schema": ref("OAuthToken")}, "application/x-www-form-urlencoded": {"schema": ref("OauthToken")}}},
+                               "responses": {"200": {"description": "d", "content": {"application/json": {"schema": ref("OAuthToken")}}}, "201": {"description": "d", "content": {"application/json": {"schema": ref("OauthToken")}}},
+                                             "400": {"description": "d", "content": {"application/json": {"schema": ref("Problem")}}}, "404": {"description": "d", "content": {"application/json": {"schema": ref("problem")}}}}}}})
+    # operations under DIFFERENT tags whose module names coincide (listAll / list_all / LIST-ALL): each tag package keeps its own module
+    F["same-module-name-other-tag"] = gen.base_doc({"U": obj(u={"type": "string"}), "G": obj(g={"type": "integer"}), "R": obj(r={"type": "boolean"})},
+        paths={"/users": {"get": {"operationId": "listAll", "tags": ["users"], "responses": jr("U")}},
+               "/groups": {"get": {"operationId": "list_all", "tags": ["groups"], "parameters": [{"name": "q", "in": "query", "schema": {"type": "string"}}], "responses": jr("G")}},
+               "/roles": {"get": {"operationId": "LIST-ALL", "tags": ["roles", "users2"], "responses": jr("R")}}})
     # literal enums whose values differ only in case
     F["literal-enum-case"] = (gen.base_doc({"Unit": {"type": "string", "enum": ["m", "M", "mm", "Mm", "MM", "k", "K"]}, "Holder": obj(u=ref("Unit"), v={"type": "string", "enum": ["a", "A", "b", "B"]})}),
                               {"literal_enums": True})
